@@ -153,3 +153,49 @@ Example C17B_nonvacuous :
   RunC17B.spec (RunC17B.ssz_decode 64 []) (Val [TL [0]; TZ 0]) = false /\
   RunC17B.spec (RunC17B.der_decode 64 [2; 2; 0; 0x7f]) (Val [TL [0x7f]; TZ 4]) = false.
 Proof. vm_compute. repeat split. Qed.
+
+(* ======================= C17C.part ======================= *)
+(* Properties/C17.v — TEMPORARY umbrella with part C only (the coordinator merges the parts).
+   Decoders are total on untrusted input: no panic, no out-of-range value; part C = num-bigint,
+   primitive-types, bytemuck, postgres FromSql.
+   Only pinned statements, `exact`, and Print Assumptions live here. *)
+From Coq Require Import ZArith List Bool.
+From RV.Model Require Import Base Word.
+From RV.Model Require Bytes CodecC.
+From RV.Spec Require FmtC.
+From RV.Run Require RunC16C RunC17C.
+From RV.Proofs Require PfC17C.
+Import ListNotations.
+Local Open Scope Z_scope.
+
+(* For every call of RunC17C (every width, every input): the decoder returns (never Panic /
+   DebugPanic / OutOfFuel) either an error or Ok v where v < 2^BITS is the integer the input
+   denotes under the reference format of Spec/FmtC.v; negative BigInts, too-large values,
+   truncated or malformed headers are errors. *)
+Theorem C17C_holds : forall c : RunC17C.call, RunC17C.wf c -> RunC17C.spec c (RunC17C.run c) = true.
+Proof. exact PfC17C.C17C_all. Qed.
+Check C17C_holds : forall c : RunC17C.call, RunC17C.wf c -> RunC17C.spec c (RunC17C.run c) = true.
+Print Assumptions C17C_holds.
+
+(* postgres FromSql::from_sql, Prop level: for every column type code (accepted or not), every
+   width and every byte string the model returns a value r (no panic) that meets the decoding
+   specification. *)
+Theorem C17C_pg_from_sql_total : forall bits ty raw,
+  0 <= bits -> Forall Bytes.isbyte raw ->
+  exists r, CodecC.pg_from_sql bits ty raw = Val r
+    /\ RunC17C.spec_pg bits ty raw (Val (RunC16C.fsres_toks r)) = true.
+Proof. exact PfC17C.pg_from_sql_ok. Qed.
+Check C17C_pg_from_sql_total : forall bits ty raw,
+  0 <= bits -> Forall Bytes.isbyte raw ->
+  exists r, CodecC.pg_from_sql bits ty raw = Val r
+    /\ RunC17C.spec_pg bits ty raw (Val (RunC16C.fsres_toks r)) = true.
+Print Assumptions C17C_pg_from_sql_total.
+
+(* non-vacuity: the repaired inputs are errors, a valid VARBIT decodes *)
+Example C17C_nonvacuous :
+  RunC17C.run (RunC17C.pg_from_sql 64 14 [0x22]) = Val [TErr 10; TErr 4; TZ 0x22]
+  /\ RunC17C.run (RunC17C.pg_from_sql 64 7 [255;255;255;255;255;255;255;255])
+     = Val [TErr 6; TZ 64; TL [0xffffffffffffffff]]
+  /\ RunC17C.run (RunC17C.pg_from_sql 7 10 [0;0;0;7; 0xaa]) = Val [TL [0x55]]
+  /\ RunC17C.run (RunC17C.pg_from_sql 64 16 [0;1; 0x7f;0xff; 0;0; 0;0; 0;1]) = Val [TErr 11; TErr 1].
+Proof. vm_compute. repeat split. Qed.
